@@ -31,6 +31,8 @@ func runC07(c *Ctx) {
 
 	checkTemplatesDelim(c)
 	checkLineReaders(c)
+	c.Rule("R07i", ruleTextDelimTables, 1)
+	checkDelimTables(c, "R07i")
 	checkComments(c)
 	checkPragmaRegexps(c)
 	checkEscapeScan(c)
@@ -612,6 +614,45 @@ func checkQuoteHelpers(c *Ctx) {
 			}
 		}
 		c.Check("R07e", fi.Name+"|escapes its closing quote", fi.Decl.Pos(), escapes, "%s writes its argument between quote characters without escaping the quote character itself: a name containing it breaks out of the quoting and the statement no longer scans back as planned", fi.Name)
+		// an escaping call that is conditional must be conditional on "the value contains the quote", nothing narrower
+		{
+			hinfo := fi.Info()
+			pm := parentMap(fi.Decl.Body)
+			for _, call := range callsIn(fi.Decl.Body, true) {
+				fn := calleeOf(hinfo, call)
+				if fn == nil || fn.Pkg() == nil || fn.Pkg().Path() != "strings" || (fn.Name() != "ReplaceAll" && fn.Name() != "Replace") {
+					continue
+				}
+				var child ast.Node = call
+				for p := pm[call]; p != nil; child, p = p, pm[p] {
+					ifs, ok := p.(*ast.IfStmt)
+					if !ok || !(ifs.Body.Pos() <= child.Pos() && child.End() <= ifs.Body.End()) {
+						continue
+					}
+					for _, f := range impliedFacts(ifs.Cond, true) {
+						be, isBin := ast.Unparen(f.expr).(*ast.BinaryExpr)
+						if !isBin || !f.val {
+							continue
+						}
+						ic, isCall := ast.Unparen(be.X).(*ast.CallExpr)
+						if !isCall {
+							continue
+						}
+						g := calleeOf(hinfo, ic)
+						if g == nil || g.Pkg() == nil || g.Pkg().Path() != "strings" || !strings.HasPrefix(g.Name(), "Index") {
+							continue
+						}
+						tv := hinfo.Types[be.Y]
+						if tv.Value == nil {
+							continue
+						}
+						k := tv.Value.String()
+						contains := be.Op == token.GEQ && k == "0" || be.Op == token.GTR && k == "-1" || be.Op == token.NEQ && k == "-1"
+						c.Check("R07e", fi.Name+"|conditional escaping covers every position", be.Pos(), contains, "%s escapes the quote character only when %s: a quote at position 0 (or wherever the test does not look) is written unescaped and terminates the quoting early", fi.Name, types.ExprString(be))
+					}
+				}
+			}
+		}
 		// every return that wraps a value in quote literals wraps the result of an escaping call
 		info := fi.Info()
 		ast.Inspect(fi.Decl.Body, func(m ast.Node) bool {
